@@ -14,6 +14,7 @@ class Session:
         self.results = []
         self.hs = []
         self.validated = 0
+        self.known = set()
 
     def harness(self, **kw):
         kw.setdefault('timeout_s', self.timeout_s)
